@@ -276,6 +276,7 @@ _C07 = {
     "forall(lambda q: implies(old(units) < q and q < units, mass_after[q] - old(mass(my_mol._mol)) <= last_draw and open_after[q] > 0))": "continues-while-not-exceeding",
     "mass_after[units] - old(mass(my_mol._mol)) > last_draw or open_after[units] == 0": "stops-at-first-exceeding-or-no-open-descriptor",
     "implies(open_after[units] != 0, fresh(result))": "capping-on-a-copy",
+    "fresh(result) or result is my_mol": "returns-a-copy-or-the-molecule-it-was-given",
     "molgen_wf(result) and weights_ok(result.bond_descriptors)": "returns-a-well-formed-molecule",
     "implies(self.right_terminal.descriptor == '', len(result.bond_descriptors) == 0)": "closed-right-end-leaves-no-open-descriptor",
     "implies(self.right_terminal.descriptor != '' and open_after[units] != 0, len(result.bond_descriptors) == 1)": "open-right-end-leaves-exactly-the-reserved-descriptor",
@@ -349,6 +350,7 @@ _SG = {
     "implies(self.right_terminal.descriptor == '', len(result.bond_descriptors) == 0)": "closed-right-end-leaves-no-open-descriptor",
     "implies(self.right_terminal.descriptor != '' and open_after[units] != 0, len(result.bond_descriptors) == 1)": "open-right-end-leaves-exactly-one-open-descriptor",
     "len(result.bond_descriptors) <= 1": "at-most-one-open-descriptor-is-handed-on",
+    "fresh(result) or result is prefix": "returns-a-new-molecule-or-the-prefix-it-was-given",
     "units >= old(units) + 1": "at-least-one-repeat-unit",
     "draws == old(draws) + 1 and last_draw_rng == rng": "one-target-mass-drawn-with-the-supplied-generator",
     "last_draw_family == doc_family(self.distribution) and last_draw_p1 == doc_p1(self.distribution) and last_draw_p2 == doc_p2(self.distribution)": "target-drawn-from-the-declared-law",
